@@ -44,7 +44,7 @@ fn spec_decode<const N: usize>(s: &[u8; N], len: usize) -> (bool, [u8; N], usize
 
 // ---- contract: decode_hex ------------------------------------------------------------------------------------
 // ensures for EVERY char c: Ok(v) <=> c is an ASCII hex digit, and then v is its value (0..=15)
-// @unit C23.decode_hex props=C23 kind=complete fn=zbus::address::transport::decode_hex timeout=300
+// @unit C23.decode_hex props=C23 kind=complete fn=zbus::address::transport::decode_hex timeout=600
 #[cfg(not(verif_skip_c23_decode_hex__complete))]
 #[cfg(kani)]
 #[kani::proof]
@@ -90,13 +90,13 @@ macro_rules! decode_percents_unit {
                     obl!($o_bytes, v[i] == want[i]);
                 }
             }
-            kani::cover!(got_ok && len == $n && want_len == 1, "cover.one_escape");
+            kani::cover!(got_ok && len == $n && want_len + 2 == len, "cover.one_escape");
             kani::cover!(!got_ok, "cover.rejected");
             core::mem::forget(r);
         }
     };
 }
-// @unit C23.decode_percents.n3 props=C23 kind=bounded bound=ASCII,len<=3 fn=zbus::address::transport::decode_percents timeout=900
+// @unit C23.decode_percents.n3 props=C23 kind=bounded bound=ASCII,len<=3 fn=zbus::address::transport::decode_percents timeout=1800
 #[cfg(not(verif_skip_c23_decode_percents__n3))]
 decode_percents_unit!(c23_decode_percents__n3, 3, 5, "C23.decode_percents.n3.ok_iff_spec_accepts", "C23.decode_percents.n3.length", "C23.decode_percents.n3.bytes");
 // @unit C23.decode_percents.n5 props=C23 kind=bounded bound=ASCII,len<=5 tier=thorough fn=zbus::address::transport::decode_percents timeout=3600
@@ -149,7 +149,7 @@ macro_rules! encode_percents_unit {
         }
     };
 }
-// @unit C23.encode_percents.n2 props=C23 kind=bounded bound=all-bytes,len<=2 fn=zbus::address::transport::encode_percents timeout=900
+// @unit C23.encode_percents.n2 props=C23 kind=bounded bound=all-bytes,len<=2 fn=zbus::address::transport::encode_percents timeout=1800
 #[cfg(not(verif_skip_c23_encode_percents__n2))]
 encode_percents_unit!(c23_encode_percents__n2, 2, 6, 8, "C23.encode_percents.n2.ok", "C23.encode_percents.n2.output_is_valid_escaping_of_same_length", "C23.encode_percents.n2.spec_decode_of_output_is_input");
 
